@@ -44,9 +44,9 @@ type Link struct {
 	LeakBad []Leak
 	// SCC: for every module that lies on an import cycle (or imports itself) the modules of its
 	// strongly connected component, sorted.
-	SCC map[string][]string
-	vis      map[string]map[string]binding
-	visSeq   map[string][]string // module -> keys of vis in declaration order
+	SCC    map[string][]string
+	vis    map[string]map[string]binding
+	visSeq map[string][]string // module -> keys of vis in declaration order
 }
 
 func key(name string, typ bool) string {
@@ -142,6 +142,11 @@ func LinkGraph(g *Graph) *Link {
 			}
 			if target != nil {
 				for _, x := range im.Items {
+					if x.Other != "" {
+						// triggers and templates come from the host only: a user module has none of its own
+						v.Bad = append(v.Bad, BadItem{x.Name, "not-exportable"})
+						continue
+					}
 					k := key(x.Name, x.Type)
 					it := target.item(x.Name, x.Type)
 					switch {
@@ -324,10 +329,25 @@ const (
 	TagMangle       = "mangle-ambiguity"  // KF-vm-mangle-ambiguity
 	TagMultiImport  = "multi-import"      // KF-tree-module-reexec
 	TagGlobalWrite  = "import-global-write"
+	TagReexport     = "reexport-trigger-templ" // KF-analyzer-reexport-trigger-templ
 	tagSharedGlobal = "shared-global-name"
 	tagGlobalVsFn   = "global-vs-fn-name"
 	tagAmbiguousFn  = "imported-fn-ambiguous"
 )
+
+// StructuralTags are tags that do not depend on the graph being accepted.
+func StructuralTags(g *Graph) []string {
+	for _, m := range g.Mods {
+		for _, im := range m.Imports {
+			for _, x := range im.Items {
+				if x.Other != "" {
+					return []string{TagReexport}
+				}
+			}
+		}
+	}
+	return nil
+}
 
 // Hazards computes the hazard tags of a graph (only meaningful for accepted graphs).
 func Hazards(g *Graph, lk *Link) []string {
